@@ -116,10 +116,10 @@ static std::vector<Frame> make_caption_stream(uint64_t seed, int nframes, bool w
     auto text = [&](int n) { for (int i = 0; i < n; i += 2) { int a = 0x41 + (int)r.below(26), b = (i + 1 < n) ? (r.chance(1, 5) ? 0x20 : 0x61 + (int)r.below(26)) : 0; v.push_back({a, b}); } };
     // XDS packet on field 2 (current class): start pair, payload, terminator with checksum; sent twice, the decoder
     // announces on the second identical reception
-    auto xds = [&](int type, std::initializer_list<int> payload) {
+    auto xds = [&](int type, std::initializer_list<int> payload, int start = 0x01) {
       for (int rep = 0; rep < 2; rep++) {
-        int sum = 0x01 + type;
-        v.push_back({0x01, type});
+        int sum = start + type;
+        v.push_back({start, type});
         std::vector<int> pl(payload); if (pl.size() & 1) pl.push_back(0);
         for (size_t i = 0; i < pl.size(); i += 2) { v.push_back({pl[i], pl[i + 1]}); sum += pl[i] + pl[i + 1]; }
         sum += 0x0F;
@@ -135,6 +135,14 @@ static std::vector<Frame> make_caption_stream(uint64_t seed, int nframes, bool w
         if (r.chance(1, 2)) xds(0x09, {0x40 + 1 + (int)r.below(30), 0x40 + 1 + (int)r.below(30)});
         if (r.chance(2, 3)) xds(0x01, {0x40 + (int)r.below(60), 0x40 + (int)r.below(24), 0x40 + 1 + (int)r.below(28), 0x40 + 1 + (int)r.below(12)});
         if (r.chance(1, 3)) xds(0x03, {'N', 'E', 'W', 'S', ' ', 0x41 + (int)r.below(26)});
+        // station identification (channel class): network name, sometimes call letters; one of three stations, so the
+        // station changes now and then - the decoder resets itself (caption decoder included) and announces the new
+        // network from inside vbi_decode()
+        if (r.chance(1, 2)) {
+          int st = (int)r.below(3);
+          if (r.chance(1, 3)) xds(0x02, {'W', 'A' + st, 'B', 'C'}, 0x05);
+          xds(0x01, {'N', 'E', 'T', ' ', 'A' + st}, 0x05);
+        }
         continue;
       }
       switch (r.below(6)) {
@@ -260,10 +268,10 @@ struct C20 : World {
   static void cap_handler(vbi_event* ev, void*) {
     CapRun& r = *gc;
     if (ev->type == VBI_EVENT_TTX_PAGE) { HarnessScope hs; r.ctx.count("ttx_page_events"); return; }
-    if (ev->type == VBI_EVENT_NETWORK) { HarnessScope hs; r.ctx.count("network_events_raised_by_the_decoding_thread"); return; }
-    if (ev->type == VBI_EVENT_ASPECT || ev->type == VBI_EVENT_PROG_INFO) { HarnessScope hs; r.ctx.count(ev->type == VBI_EVENT_ASPECT ? "aspect_events" : "prog_info_events"); }
+    if (ev->type == VBI_EVENT_NETWORK) { HarnessScope hs; r.ctx.count("network_events_raised_by_the_decoding_thread"); }
+    else if (ev->type == VBI_EVENT_ASPECT || ev->type == VBI_EVENT_PROG_INFO) { HarnessScope hs; r.ctx.count(ev->type == VBI_EVENT_ASPECT ? "aspect_events" : "prog_info_events"); }
     else if (ev->type != VBI_EVENT_CAPTION) return;
-    if (!r.handler_fetches) return;
+    if (!r.handler_fetches) return;   // (a NETWORK, ASPECT or PROG_INFO handler that fetches a caption page: the event must not be sent with the caption mutex held)
     vbi_page pg; memset(&pg, 0, sizeof pg);
     vbi_bool ok = vbi_fetch_cc_page(r.dec, &pg, ev->type == VBI_EVENT_CAPTION ? ev->ev.caption.pgno : 1 + (int)(r.handler_results.size() % 8), TRUE);
     HarnessScope hs;
